@@ -36,6 +36,7 @@ var c17Valid = []string{
 	"string-length ( N1 )", "normalize-space ( N1 )", "floor ( D1 )", "ceiling ( D1 )", "round ( D1 )", "boolean ( N1 )", "number ( N1 )", "string ( N1 )",
 	"string-join ( N1 , S1 )", "matches ( N1 , 'a' )", "replace ( N1 , 'a' , S1 )", "lower-case ( N1 )", "reverse ( N1 )",
 	"N1 [ position ( ) = D1 ]", "N1 [ last ( ) ]", "N1 [ not ( N2 ) ] [ D1 ]", "N1 [ N2 [ N3 ] ]", "( N1 ) [ D1 ]", "N1 / ( N2 , N3 )",
+	"( D1 )", "( S1 )", "D1 + ( D2 )", "N1 = ( S1 )", "count ( N1 ) > ( D1 )", "( ( D1 ) )", "- ( D1 )", "N1 [ ( D1 ) ]", "concat ( ( S1 ) , S2 )",
 	"N1 [ count ( N2 ) = D1 w1 and w2 @ N3 ]", "// N1 [ @ N2 = S1 ] / N3", "N1 / text ( )", "N1 / node ( )", "comment ( )", "N1 : N2", "N1 : N2 / N3 : N1",
 }
 
@@ -143,7 +144,8 @@ func buildC17(tier string, seed int64) *Family {
 		}
 	}
 	// malformed qualified names
-	for _, t := range []string{"N1 :", ": N1", "N1 : N2 : N3", "N1 : w1 N2", "N1 / N2 :", "N1 [ N2 : ]", "@ N1 :", "N1 : : N2", "N1 :: : N2", "count ( N1 : )"} {
+	for _, t := range []string{"N1 :", ": N1", "N1 : N2 : N3", "N1 : w1 N2", "N1 / N2 :", "N1 [ N2 : ]", "@ N1 :", "N1 : : N2", "N1 :: : N2", "count ( N1 : )",
+		"N1 w1 : N2", "N1 w1 : *", "// N1 w1 : N2", "N1 / N2 w1 : N3", "N1 [ @ N2 w1 : N3 = S1 ]", "count ( // N1 w1 : N2 ) > D1", "N1 w1 : w2 N2", "@ N1 w1 : N2"} {
 		insts = append(insts, rejectInst(t, "malformed-qname"))
 	}
 	insts = dedupInst(insts)
